@@ -84,10 +84,36 @@ def check_rp2(rep, h):
     s = ir.Sym(h.func, cut_loops=True)
     if s.unknown or s.calls:
         raise AnalysisBroken("C18 %s: unexpected instruction/call" % inst)
+    w = TYPES[T]
+    if not s.loops:
+        # a closed form (std::bit_ceil, a count-leading-zeros expression): a step expression of i is decided by exact evaluation at
+        # the points where it can change, 2^k + d for |d| <= 2
+        from .hilbert_curve import step_expr, ev_int
+        rv = s.retval()
+        i = ('arg', 0)
+        if rv is None or not step_expr(ir.ungate(rv), {i}):
+            raise AnalysisBroken("C18 %s: no loop, and the result %s is not a step expression of i (count-leading-zeros, shifts, constants): not decided; re-confirm %s by reading" % (inst, ir.show(rv)[:80] if rv else "?", FILE))
+        m = (1 << w) - 1
+        for k in range(0, w):
+            for d in (-2, -1, 0, 1, 2):
+                x = (1 << k) + d
+                if x < 1 or x > (1 << (w - 1)):
+                    continue
+                try:
+                    got = ev_int(ir.ungate(rv), {i: x}) & m
+                except AnalysisBroken as e:
+                    raise AnalysisBroken("C18 %s: %s" % (inst, e))
+                want = 1
+                while want < x:
+                    want *= 2
+                if got != want:
+                    rep.fail("C18.rp2", inst, FILE, "round_pow2(%d) evaluates to %d, the least power of two not below it is %d (closed form %s)" % (x, got, want, ir.show(ir.ungate(rv))[:80]))
+                    return
+        rep.ok("C18.rp2", inst, sample={"instantiation": inst, "form": "closed (no loop): step expression of i", "verdict": "equals the least power of two >= i at every point where it can change, 1 <= i <= 2^%d" % (w - 1)})
+        return
     if len(s.loops) != 1 or len(s.iv) != 1:
         raise AnalysisBroken("C18 %s: not a single loop with a single loop-carried value (%d loops, %d carried values); a different algorithm must be re-confirmed by reading %s" % (inst, len(s.loops), len(s.iv), FILE))
     (pid, info), = s.iv.items()
-    w = TYPES[T]
     v = ('iv', pid, info["init"])
     i = ('arg', 0)
     step = s.iv_step(pid)
